@@ -58,13 +58,17 @@ func judgeUsable(c *Ctx, k usableCase) {
 	admitted := ref.Admit(k.Suite, in)
 	// every 5th configuration also as a constructed-then-edited RawSuite value: the outcome must not depend on how the value was made
 	if (k.Suite.Digits+k.Suite.Hash+k.Suite.Challenge+k.Suite.TimeStep)%5 == 0 {
-		if es, eerr, epan := makeSuite(viaEdited, k.Suite); eerr == nil && epan == nil && es != nil {
+		via2 := viaEdited
+		if (k.Suite.Digits+k.Suite.Hash)%2 == 0 {
+			via2 = viaPointer
+		}
+		if es, eerr, epan := makeSuite(via2, k.Suite); eerr == nil && epan == nil && es != nil {
 			_, e2, p2 := callGenerateOCRA("GEZDGNBVGY3TQOJQGEZDGNBVGY3TQOJQ", es, toOCRAInput(in))
 			var verr2 error
 			p3 := monCatch(func() { verr2 = es.Validate() })
 			r.Eval(2)
 			if p2 != nil || p3 != nil || (e2 == nil) != (want && admitted) || (verr2 == nil) != want {
-				r.Violate("C14|constructed-then-edited|usability|"+rule, "a suite value obtained from a constructor and then edited by the caller is judged differently from the same configuration built directly ("+rule+")", "usable", k, fmt.Sprintf("usable=%v", want), fmt.Sprintf("Validate err=%v, GenerateOCRA err=%v panic=%v/%v", verr2, e2, p2, p3))
+				r.Violate("C14|"+via2+"|usability|"+rule, "a suite obtained from a constructor and then edited by the caller, or handed over by pointer and reconfigured in place, is judged differently from the same configuration built directly ("+rule+")", "usable", k, fmt.Sprintf("usable=%v", want), fmt.Sprintf("Validate err=%v, GenerateOCRA err=%v panic=%v/%v", verr2, e2, p2, p3))
 			}
 		}
 	}
